@@ -18,6 +18,10 @@ TRANSPARENT = {
     'core::ops::deref::DerefMut::deref_mut': 0,
     'core::borrow::Borrow::borrow': 0,
     'alloc::boxed::Box::new': 0,
+    # adapters that keep the success value (and success-ness) of a Result / Option unchanged
+    'core::result::Result::map_err': 0,
+    'core::option::Option::ok_or': 0,
+    'core::option::Option::ok_or_else': 0,
 }
 
 
@@ -83,6 +87,77 @@ def future_source(body, pollcs):
     return None
 
 
+POLL_FN = 'core::future::poll_fn::poll_fn'
+
+
+def select_futures(body, pollfn_cs):
+    """for the `poll_fn(closure)` call a tokio::select! expands to: the call sites that created the raced futures,
+    in branch order (None where not resolvable)"""
+    cache = body.__dict__.setdefault('_select_cache', {})
+    if pollfn_cs.block in cache:
+        return cache[pollfn_cs.block]
+    out = None
+    s = sem(body, pollfn_cs.args[0]) if pollfn_cs.args else None
+    if s is not None and s.kind == 'agg' and 'closure' in s.extra:
+        for up in s.extra['a']:
+            l = op_local(up)
+            guard = 0
+            tup = None
+            while l is not None and guard < 6:
+                guard += 1
+                ds = [d for d in body.defs().get(l, []) if d[0] == 'assign' and not d[2]['pl']['p']]
+                if len(ds) != 1:
+                    break
+                rv = ds[0][2]['rv']
+                if rv['r'] == 'agg' and rv.get('tuple'):
+                    tup = rv
+                    break
+                if rv['r'] in ('ref', 'copyderef'):
+                    l = rv['pl']['l']
+                    continue
+                if rv['r'] == 'use':
+                    l = op_local(rv['a'][0])
+                    continue
+                break
+            if tup is not None and len(tup['a']) >= 1:
+                futs = []
+                for el in tup['a']:
+                    es = sem(body, el)
+                    if es.kind == 'call' and es.cs.is_(INTO_FUTURE):
+                        es = sem(body, es.cs.args[0])
+                    futs.append(es.cs if es.kind == 'call' else None)
+                if any(f is not None for f in futs):
+                    out = futs
+                    break
+    cache[pollfn_cs.block] = out
+    return out
+
+
+def select_sites(body):
+    """tokio::select! expansions in body: [{'poll_fn': cs, 'futures': [cs|None], 'arms': {k: edge}}]"""
+    out = []
+    for cs in body.calls(POLL_FN):
+        futs = select_futures(body, cs)
+        if not futs:
+            continue
+        arms = {}
+        for i in body.switches():
+            info = body.switch_info(i)
+            if info['kind'] != 'variant' or not info['adt'].endswith('__tokio_select_util::Out'):
+                continue
+            ps = sem(body, info['place'])
+            if not (ps.kind == 'select' and ps.cs is cs and ps.proj == ()):
+                continue
+            t = body.blocks[i]['term']
+            for v, _ in t['vals']:
+                e = ('e', i, str(v))
+                lab = body.edge_variant(e)
+                if lab and lab.startswith('_') and lab[1:].isdigit():
+                    arms[int(lab[1:])] = e
+        out.append({'poll_fn': cs, 'futures': futs, 'arms': arms})
+    return out
+
+
 def sem(body, o, transparent=True, _depth=0):
     """semantic origin of an operand (or place dict)"""
     if o is None:
@@ -132,6 +207,14 @@ def _sem_org(body, org, transparent, depth):
                 return Sem('other')
             if isinstance(src, tuple):
                 return Sem('awaited-place', local=src[1], proj=tuple(src[2]) + ('<await>',) + rest)
+            if src.is_(POLL_FN):
+                # tokio::select!: `output.as _k.0` is the awaited value of the k-th future
+                futs = select_futures(body, src)
+                if futs and len(rest) >= 2 and rest[0].startswith('downcast:') and rest[1].startswith('field:0:'):
+                    vn = rest[0].split(':', 2)[2]
+                    if vn.startswith('_') and vn[1:].isdigit() and int(vn[1:]) < len(futs) and futs[int(vn[1:])] is not None:
+                        return _sem_call(body, futs[int(vn[1:])], tuple(rest[2:]), transparent, depth)
+                return Sem('select', cs=src, proj=rest)
             return _sem_call(body, src, rest, transparent, depth)
         if cs.is_(TRY_BRANCH):
             rest = _strip(proj, 'Continue')
@@ -374,12 +457,14 @@ def refers_to_name(body, o, name, exact=False):
     return sem_is_name(body, s, name, exact)
 
 
-def sem_is_name(body, s, name, exact=False):
+def sem_is_name(body, s, name, exact=False, first_only=False):
     if s.kind != 'place':
         return False
     for n, pl in body.names.items():
         base = n.split('#')[0]
         if base != name:
+            continue
+        if first_only and n != name:
             continue
         if pl['l'] != s.local:
             continue
@@ -555,7 +640,7 @@ def chain_names(body, o, depth=0):
         l = pl['l']
         for n, p in body.names.items():
             if p['l'] == l and list(p['p']) == list(pl['p'])[:len(p['p'])]:
-                out.append(n.split('#')[0])
+                out.append(n)
         if l <= body.argc and l != 0:
             return out
         if l in body.user_locals and not body.stable(l):
@@ -593,9 +678,14 @@ def chain_names(body, o, depth=0):
     return out
 
 
-def is_name(body, o, name):
-    """operand is (a projection / transparent view of) the user variable or parameter `name`"""
-    return name in chain_names(body, o) or sem_is_name(body, sem(body, o), name)
+def is_name(body, o, name, any_shadow=False):
+    """operand is (a projection / transparent view of) the user variable or parameter `name`.
+    By default only the FIRST binding of that name counts (parameters come first), so that
+    `let range = f(range)` shadowing is not mistaken for the parameter."""
+    ch = chain_names(body, o)
+    if any_shadow:
+        return name in [n.split('#')[0] for n in ch] or sem_is_name(body, sem(body, o), name)
+    return name in ch or sem_is_name(body, sem(body, o), name, first_only=True)
 
 
 # ---- enum-valued place conditions ------------------------------------------------------------------
@@ -852,3 +942,67 @@ def through_checks(P, body, o):
         s = sem(body, s.cs.args[0])
         guard += 1
     return s
+
+
+LIMITED_COUNT = 'rodbus::types::AddressRange::limited_count'
+
+
+def limit_witnesses(P, b, const_path, value):
+    """calls in `b` whose success implies `count <= const`: limited_count(_, CONST) directly, or a helper whose
+    success exits all pass through such a call (depth 2); plus direct comparison edges against the constant"""
+    wit = []
+    for cs in b.calls():
+        if cs.is_(LIMITED_COUNT) and len(cs.args) > 1 and (const_def(b, cs.args[1]) == const_path or const_val(b, cs.args[1]) == value):
+            wit.append((cs, outcomes(b, cs).get('success', [])))
+            continue
+        for nme in cs.names():
+            hb = P.get(nme)
+            if hb is None or nme == b.path:
+                continue
+            inner = [x for x in hb.calls(LIMITED_COUNT) if len(x.args) > 1 and (const_def(hb, x.args[1]) == const_path or const_val(hb, x.args[1]) == value)]
+            if inner and all(any(dominated_by_any(hb, outcomes(hb, x).get('success', []), ex['node']) for x in inner) for ex in ok_exits(hb)):
+                wit.append((cs, outcomes(b, cs).get('success', [])))
+                break
+    edges = []
+    for (e, rel, a, bb) in cmp_facts(b):
+        if rel in ('le', 'lt'):
+            if (const_def(b, bb) == const_path or const_val(b, bb) == (value if rel == 'le' else value + 1)) and \
+                    ('count' in chain_names(b, a) or any('count' in p for p in sem(b, a).proj)):
+                edges.append(e)
+    return wit, edges
+
+
+
+
+def reinitialised_each_iteration(body, use_node, var_name, const_value=0):
+    """`use_node` lies in a loop, and on every cyclic path through it the user variable `var_name` is re-assigned
+    the constant `const_value` (e.g. a per-byte accumulator cleared after / before each flush).
+    Decided by deleting the blocks that assign the constant and asking whether use_node is still on a cycle."""
+    cyc = body.cycle_of(use_node)
+    if cyc is None:
+        return False, 'use is not in a loop'
+    pls = [pl for n, pl in body.names.items() if n.split('#')[0] == var_name and not pl['p']]
+    if not pls:
+        return False, 'variable %s not found' % var_name
+    locs = {pl['l'] for pl in pls}
+    resets = set()
+    for i, s in body.assigns():
+        if s['pl']['l'] in locs and not s['pl']['p'] and s['rv']['r'] == 'use' and const_val(body, s['rv']['a'][0]) == const_value:
+            resets.add(('b', i))
+    inside = resets & cyc
+    if not inside:
+        return False, 'no `%s = %s` inside the loop' % (var_name, const_value)
+    # is use_node still on a cycle when the reset blocks are removed?
+    seen = set()
+    st = [use_node]
+    while st:
+        n = st.pop()
+        for s in body.succ[n]:
+            if s in inside or s not in cyc:
+                continue
+            if s == use_node:
+                return False, 'a cyclic path through the use avoids every `%s = %s`' % (var_name, const_value)
+            if s not in seen:
+                seen.add(s)
+                st.append(s)
+    return True, '%d reset site(s) cut every cycle through the use' % len(inside)
